@@ -250,6 +250,29 @@ LoopDiagGames ==
             pout \in { <<Tr("", 9, 5), Tr("", 1, 4)>>, <<Tr("", 1, 5), Tr("", 1, 4)>>, <<Tr("", 1, 5), Tr("", 9, 4)>> },
             r \in { <<1, 3, 1>>, <<0, 0, 2>>, <<1, 9, 0>>, <<2, 1, 1>> } }
 
+(* SlowRew: a player state T whose reachability choice (b: a quick exit) and  *)
+(* whose reward choice (a: a cheap but slow rewarded loop back to T) differ,  *)
+(* so that the plain expected reward converges 40-100 times more slowly than  *)
+(* the two diagnostic quantities of the same sweep.                           *)
+(*   1 S -> T ; 2 T: a -> L, b -> Q ; 3 L: back to T (W-1)/W, on to R 1/W ;   *)
+(*   4 Q ; 5 R ; 6 lose ; 7 win                                               *)
+SlowRewGames ==
+    LET mk(o, W, q, rL, rQ) ==
+          [n |-> 7,
+           owner  |-> <<PR, o, PR, PR, PR, PR, PR>>,
+           reward |-> <<0, 0, rL, rQ, 0, 0, 0>>,
+           tr |-> << <<Tr("", 1, 2)>>,
+                     <<Tr("a", 0, 3), Tr("b", 0, 4)>>,
+                     <<Tr("", W - 1, 2), Tr("", 1, 5)>>,
+                     q,
+                     <<Tr("", 1, 7), Tr("", 1, 6)>>,
+                     <<Tr("", 1, 6)>>, <<Tr("", 1, 7)>> >>,
+           final |-> <<7>>]
+    IN  { mk(o, W, q, rL, rQ) :
+            o \in {P1, P2}, W \in {20, 50},
+            q \in { <<Tr("", 2, 7), Tr("", 3, 6)>>, <<Tr("", 1, 7), Tr("", 1, 6)>>, <<Tr("", 3, 7), Tr("", 2, 6)>> },
+            rL \in {1, 5}, rQ \in {0, 100, 1000} }
+
 (* ZeroW: probabilistic transitions of weight 0 (never taken, but present):  *)
 (* into dead states, into the final state, next to live ones.                *)
 (*   1 chooser ; 2 chance with a zero-weight edge ; 3 live ; 4 dead ; 5 lose ; 6 win *)
@@ -410,9 +433,14 @@ RandRel(g) ==
          pi |-> [s \in 1..g.n |-> IF s = 1 THEN 1 ELSE p[s]],
          rho |-> [s \in 1..g.n |-> RandomElement(Permutations(1..Len(g.tr[s])))],
          alpha |-> RandomElement(Renamings)]
+\* reward ties at values that round up at six decimals
+TieUp == {g \in TieGames : g.tr[2][1].t = 4}
 PermBase(i) ==
     IF i % 9 = 4 THEN RandomElement(TinySlow)
     ELSE IF i % 9 = 7 THEN RandomElement(TinyChains)
+    ELSE IF i % 18 = 5 THEN RandomElement(SlowRewGames)
+    ELSE IF i % 18 = 14 THEN RandomElement(ZeroWGames)
+    ELSE IF i % 9 = 8 THEN RandomElement(IF i % 2 = 0 THEN TieUp ELSE TieGames)
     ELSE IF i % 3 = 0 THEN RandomElement(DeadGames)
     ELSE IF i % 3 = 1 THEN StopGame(SizeOf(i)) ELSE RandGame(SizeOf(i))
 PermFamily ==
